@@ -23,6 +23,10 @@ CLAIMS = {
   text="Deductive proof that SessionTracker.DecodeSeqNum and EncodeSeqNum equal the fold of the per-update translation functions stepDec/stepEnc over the pending queue (unbounded queue length, all uint32 numbers), that the per-update translations are mutually inverse and yield zero exactly for the expunged / not-yet-announced message (lemmas for every well-formed update and count), and that the ghost folds terminate.",
   note="Mutex operations are no-ops (sequential reading under the lock). Queue-level composition of the per-update inverse lemmas, Poll and the fan-out in MailboxTracker.queueUpdate are not yet under contract.",
   design="§6 C07"),
+ "C17": dict(
+  text="Deductive proof of the ordering and outcome of the STARTTLS switch on both sides, as call-site obligations over ghost call records: the server creates the TLS layer only when STARTTLS is permitted (TLS configured, not authenticated, not already TLS — canStartTLS proved exact), only after the tagged OK was written without error and the buffered plaintext was drained (io.CopyN) into a buffer that is the FIRST reader handed to the TLS layer (io.MultiReader argument order); the buffered reader and writer are reset only after the TLS connection exists; on success Conn.conn is a *tls.Conn and both resets happened. The client does the same (drain, buffer first, reset after tls.Client). NewStartTLS returns a client only if startTLS succeeded and the observed state was NotAuthenticated (PREAUTH refused). Credentials are accepted only over TLS or with InsecureAuth (canAuth exact, shared with C05).",
+  note="Assumed stdlib behaviour: bufio.Reader.Reset discards buffered data, io.MultiReader reads its arguments in order, tls.Server/tls.Client read only through the given conn, CopyN of Buffered() bytes cannot fail. Not covered: the capability advertisement table (LOGINDISABLED / AUTH=), segmentation timing, that DiscardLine reads nothing after the handler.",
+  design="§6 C17"),
  "C18": dict(
   text="Deductive proof that the client only uses syntax the negotiated capabilities allow: a non-synchronising literal is started by Encoder.stringLiteral only with LITERAL+ or with LITERAL- and at most 4096 bytes, and by commandEncoder.Literal (APPEND) only for at most 4096 bytes with LITERAL- available (CapSet.Has implication rules proved exact for LITERAL-, LITERAL+, IMAP4rev2, UTF8=ACCEPT); beginCommand configures the wire encoder from exactly those capabilities; every direct use of Encoder.Quoted passes an admissible string (no CR/LF/NUL, 8-bit only with UTF-8 quoting); Encoder.Literal hands out a payload writer for a synchronising literal only after ContinuationRequest.Wait returned without error and a payload-dropping writer otherwise.",
   note="Not covered: real-time ordering of the server's '+' against client writes beyond the Wait contract (schedules), search CHARSET selection, cancellation of continuation requests in completeCommand.",
